@@ -23,6 +23,7 @@ SPEC = {
                  "C09_trie_refines_map", "C09_trie_canonical", "C09_trie_history_independent", "C09_trie_root_function",
                  "C09_trie_root_injective", "C09_trie_ext_expand", "C09_trie_ext_history_independent",
                  "C09_trie_ext_shape_depends_on_history_witness",
+                 "C09_instances_independent", "C09_instances_independent_run", "C09_key_spaces_disjoint", "C09_shared_tree_realm_witness",
                  "C09_serialised", "C09_concurrent_quiescent", "C09_concurrent_readers", "C09_unlocked_has_witness",
                  "C09_skeleton_set", "C09_skeleton_delete", "C09_skeleton_size", "C09_skeleton_commit", "C09_skeleton_root",
                  "C09_skeleton_has", "C09_skeleton_get", "C09_skeleton_stream", "C09_skeleton_restored",
@@ -40,10 +41,11 @@ SPEC = {
                  "concurrent use: protocol model Hive/Model/AdsConc.lean (RWMutex, micro-steps has / tree write / raw-key write / size read / size write, Commit = root.Set + flush; RLock without writer preference); "
                  "WasRestoredFromStorage (takes no lock of the map) and reopen are not part of concurrent scripts; the trie and the stores are assumed to be touched only inside the map's lock"],
     "manifest": {
-        "text": "Theorems over every history of Set/Add/Get/Has/Delete/Size/Stream/Commit/Root/WasRestoredFromStorage/reopen with arbitrary keys, values (incl. empty values, failing serializers, an arbitrary decoder) and reopens at commit points: every answer is the plain-map answer (C09_refines, C09_refines_run, C09_contents), Size is the cardinality (C09_size_eq_card), Stream delivers exactly the map (C09_stream), equal contents give equal roots whatever the histories (C09_root_content_only), different contents give different roots under the explicit hypothesis Function.Injective rootOf (C09_root_injective, C09_root_eq_iff), a new instance opened after Commit is in exactly the committed state and reports restored (C09_reopen_after_commit, C09_reopen_faithful), WasRestoredFromStorage is true iff a Commit happened (C09_restored_iff_commit). The hand-written model of the hive.go glue over an abstract trie is re-validated against the working tree on every run: sessions of several real map/set instances over mapdb, keys mined to share 8..16+ leading sha256-path bits, roots compared as equality classes over all instances and time points, plus an independent Go oracle (plain Go map, root equality vs contents equality, reopened instance vs committed one). The trie is additionally modelled itself (update/delete/Get/digest with smt's extension-node surgery over uninterpreted hash functions): canonical shape, history independence and 'Root = rootOf contents' are theorems (C09_trie_*), and that model is tied to a real smt.SMT (sha256 paths, raw values, in-memory node store) by a second differential part: Get/Delete answers, root equality classes over histories, and after every Commit the shape of the trie walked from the node store (extension bit runs, inner nodes with an empty child) and the number of records, plus an independent oracle (store complete, no stale records, expanded trie = canonical trie of the contents built from scratch). Concurrent use: a protocol theorem over every schedule and any number of goroutines (C09_serialised: write sections are mutually exclusive, the log of completed calls is a run of the sequential machine, so every history theorem applies; C09_concurrent_quiescent: Size = card and Stream = present keys whenever no write is in progress; C09_concurrent_readers), the lock/call skeletons of all map_impl.go methods regenerated from the source on every run (C09_skeleton_*), and a stress part (goroutines released together on the same fresh key and on fresh keys of their own, quiescent observations judged by the Lean trace predicates, -race in the thorough tier).",
+        "text": "Theorems over every history of Set/Add/Get/Has/Delete/Size/Stream/Commit/Root/WasRestoredFromStorage/reopen with arbitrary keys, values (incl. empty values, failing serializers, an arbitrary decoder) and reopens at commit points: every answer is the plain-map answer (C09_refines, C09_refines_run, C09_contents), Size is the cardinality (C09_size_eq_card), Stream delivers exactly the map (C09_stream), equal contents give equal roots whatever the histories (C09_root_content_only), different contents give different roots under the explicit hypothesis Function.Injective rootOf (C09_root_injective, C09_root_eq_iff), a new instance opened after Commit is in exactly the committed state and reports restored (C09_reopen_after_commit, C09_reopen_faithful), WasRestoredFromStorage is true iff a Commit happened (C09_restored_iff_commit). The hand-written model of the hive.go glue over an abstract trie is re-validated against the working tree on every run: sessions of several real map/set instances over mapdb, keys mined to share 8..16+ leading sha256-path bits, roots compared as equality classes over all instances and time points, plus an independent Go oracle (plain Go map, root equality vs contents equality, reopened instance vs committed one). The trie is additionally modelled itself (update/delete/Get/digest with smt's extension-node surgery over uninterpreted hash functions): canonical shape, history independence and 'Root = rootOf contents' are theorems (C09_trie_*), and that model is tied to a real smt.SMT (sha256 paths, raw values, in-memory node store) by a second differential part: Get/Delete answers, root equality classes over histories, and after every Commit the shape of the trie walked from the node store (extension bit runs, inner nodes with an empty child) and the number of records, plus an independent oracle (store complete, no stale records, expanded trie = canonical trie of the contents built from scratch). Several instances in one database: the constructor's four key spaces are derived from the realm of the store view (Hive/Model/AdsRealm.lean); calls on one instance never change another instance's state and every instance behaves as if alone (C09_instances_independent, C09_instances_independent_run), the key spaces of compatible realms are disjoint in the flat store (C09_key_spaces_disjoint); 2 of 5 sessions of the differential run put all instances over sibling / nested / prefix-related realm views of ONE shared mapdb, hold the same entries in several of them, delete+commit in one and reopen the others. Concurrent use: a protocol theorem over every schedule and any number of goroutines (C09_serialised: write sections are mutually exclusive, the log of completed calls is a run of the sequential machine, so every history theorem applies; C09_concurrent_quiescent: Size = card and Stream = present keys whenever no write is in progress; C09_concurrent_readers), the lock/call skeletons of all map_impl.go methods regenerated from the source on every run (C09_skeleton_*), and a stress part (goroutines released together on the same fresh key and on fresh keys of their own, quiescent observations judged by the Lean trace predicates, -race in the thorough tier).",
         "note": "Trusted: Lean kernel; model Hive/Model/Ads.lean (tie = differential execution); pokt-network/smt and SHA-256 abstracted as Root = rootOf(contents), injectivity of rootOf only as theorem hypothesis; one live instance per store; Int size; store I/O errors not modelled.",
         "technique": "Lean 4 refinement proof (invariant + abstraction function, induction over histories) + canonical-form proof for the trie + interleaving-protocol invariant + differential correspondence (glue, trie shapes, root equality classes) + regenerated lock skeletons + stress judged by Lean trace predicates",
     },
-    "assumptions": ["one live instance per store at a time; an instance replaced by reopen is never used again",
+    "assumptions": ["several instances in one database: realms pairwise compatible (no region id realm+{0,1,2,3} of one is a prefix of a region id of another; C09_key_spaces_disjoint); the database is modelled at the granularity of these regions",
+                    "one live instance per store view at a time; an instance replaced by reopen is never used again",
                     "reopen at commit points for the property theorems (the model itself also follows the code for reopens with un-committed changes, and the tie compares those too)"],
 }
